@@ -47,6 +47,9 @@ func (eval Evaluator) Trace(ctIn *Ciphertext, logN int, opOut *Ciphertext) (err 
 
 	*opOut.MetaData = *ctIn.MetaData
 
+	// Domain of the input (ctIn and opOut can be the same object)
+	isNTT := ctIn.IsNTT
+
 	// The conjugate-invariant ring of degree N is the sub-ring of the standard ring
 	// of degree 2N fixed by X -> X^{-1}: the trace is the one of that standard ring,
 	// without the last step that applies X -> X^{-1}.
@@ -74,7 +77,7 @@ func (eval Evaluator) Trace(ctIn *Ciphertext, logN int, opOut *Ciphertext) (err 
 		ringQ.MulScalarBigint(ctIn.Value[0], NInv, opOut.Value[0])
 		ringQ.MulScalarBigint(ctIn.Value[1], NInv, opOut.Value[1])
 
-		if !ctIn.IsNTT {
+		if !isNTT {
 			ringQ.NTT(opOut.Value[0], opOut.Value[0])
 			ringQ.NTT(opOut.Value[1], opOut.Value[1])
 			opOut.IsNTT = true
@@ -110,7 +113,7 @@ func (eval Evaluator) Trace(ctIn *Ciphertext, logN int, opOut *Ciphertext) (err 
 			ringQ.Add(opOut.Value[1], buff.Value[1], opOut.Value[1])
 		}
 
-		if !ctIn.IsNTT {
+		if !isNTT {
 			ringQ.INTT(opOut.Value[0], opOut.Value[0])
 			ringQ.INTT(opOut.Value[1], opOut.Value[1])
 			opOut.IsNTT = false
